@@ -6,6 +6,17 @@ from . import hirq, nf, slicer
 from .rulelib import short, for_loops, tree_of
 
 KILL_METHODS = {"fill", "clear"}
+CELL_TYPES = ("std::option::Option<", "core::option::Option<", "std::sync::OnceLock<", "std::cell::OnceCell<", "core::cell::OnceCell<")
+
+
+def _is_cell_take(n):
+    """`x.take()` on an Option / OnceLock / OnceCell leaves the empty value (`None`, `OnceLock::new()`)"""
+    if n.get("k") != "MethodCall" or n.get("name") != "take" or n.get("args"):
+        return False
+    ty = n.get("recv_ty", "")
+    ty = ty[5:] if ty.startswith("&mut ") else ty
+    return ty.startswith(CELL_TYPES)
+
 PURE_READ_METHODS = {"len", "is_empty", "iter", "get", "contains", "first", "last", "capacity", "clone", "to_vec", "hash_one",
                      "build_hasher", "sample", "contains_key"}
 
@@ -217,7 +228,7 @@ class Analyzer:
                             self._use(f, st, s)
                         # config-only reads are not uses of state
                         return
-                if mutable and name in KILL_METHODS and whole:
+                if mutable and whole and (name in KILL_METHODS or _is_cell_take(n)):
                     self._kill(f, st, s)
                 elif mutable:
                     self._mutate(f, st, s)
@@ -569,7 +580,7 @@ def reset_specs(fn, aliases, nested_types):
                 return
             if stmt["name"] == "fill" and len(stmt["args"]) == 1:
                 out[key] = Spec("fill", value(stmt["args"][0]), "N")
-            elif stmt["name"] == "clear":
+            elif stmt["name"] == "clear" or _is_cell_take(stmt):
                 out[key] = Spec("empty", "", "")
             elif stmt["name"] == "reset" and key in nested_types:
                 out[key] = Spec("fresh", nested_types[key], "N")
